@@ -21,12 +21,14 @@ class Trig (K : Type) where
   sin   : K → K
   cos   : K → K
   atan2 : K → K → K      -- atan2 y x
+  acos  : K → K
   pi    : K              -- M_PI
 
 instance : Trig Float where
   sin := Float.sin
   cos := Float.cos
   atan2 := Float.atan2
+  acos := Float.acos
   pi := 3.14159265358979323846
 
 namespace Cogo
